@@ -549,6 +549,8 @@ def make_libs():
         'marshal': Marshal,
         'pathlib': PathlibModel,
         'json': JsonModel,
+        'geojson': __import__('pyvc.lib.exportlibs', fromlist=['x']).GeoJsonModule,
+        'shapefile': __import__('pyvc.lib.exportlibs', fromlist=['x']).ShapefileModule,
         'argparse': __import__('argparse'),
         'decimal': __import__('decimal'),
         'tempfile': TempfileModel,
